@@ -2,6 +2,7 @@ package compaction
 
 import (
 	"fmt"
+	"github.com/KevoDB/kevo/pkg/verifhook"
 	"os"
 	"sync"
 )
@@ -86,6 +87,7 @@ func (f *DefaultFileTracker) CleanupObsoleteFiles() error {
 			// If the file doesn't exist, remove it from our tracking
 			delete(f.obsoleteFiles, path)
 		} else {
+			verifhook.At("compact.inputDeleted")
 			// Successfully deleted, remove from tracking
 			delete(f.obsoleteFiles, path)
 		}
